@@ -8,7 +8,7 @@ from typing import Dict, List, Optional, Set, Tuple
 from hypothesis import strategies as st
 
 from vf.core import CaseResult, Ctx, Violation, hyp_run
-from vf.gen.wfspec import atom_optional, atoms_of, wfspecs
+from vf.gen.wfspec import atoms_of, wfspecs
 from vf.sim.drive import (
     SCase, job_outputs, outcome_for, outcome_maps, run_async)
 from vf.sim.model import Model, atom_target, expand_out
@@ -463,8 +463,13 @@ def _oracle_set(sc: SCase, ast: Ast, final_pool, paused_end, crashed, viol,
         before = {f'{t["cycle"]}/{t["name"]}': t for t in ev['before']}
         after = {f'{t["cycle"]}/{t["name"]}': t for t in ev['after']}
         b, a = before.get(tid), after.get(tid)
-        ran_before = any(e['k'] in ('add', 'launch') and e['cycle'] == cyc
-                         and e['name'] == name for e in trace[:ev['n0']])
+        # has been in the pool before, or was given outputs by an earlier
+        # `cylc set` while inactive (history in the DB)
+        ran_before = any(
+            (e['k'] in ('add', 'launch') and e['cycle'] == cyc
+             and e['name'] == name)
+            or (e['k'] == 'cmd' and e.get('target') == tid)
+            for e in trace[:ev['n0']])
         if b is not None:
             classes.add('target:' + b['status'])
         else:
